@@ -13,3 +13,11 @@ LEVEL_TEXT = EXPLANATION
 TIMEOUT_MS = {'quick': 20000, 'thorough': 120000}
 MUSTFAIL_PER_FN = {'quick': 1, 'thorough': 6}
 BOUNDED = [hub_bounded('C11-case', ['attrs', 'basic', 'forms', 'ns', 'svghtml', 'plain', 'svg5'], ['ns', 'core', 'html'], nsnames=('none', 'svg'))]
+
+
+def _bt_attr_ops(ctx):
+    from pyvc import bounded_text
+    return bounded_text.attr_ops(ctx)
+
+
+BOUNDED = BOUNDED + [_bt_attr_ops]
